@@ -8,12 +8,18 @@ import NgVerif.Model.Slices
 import Mathlib.Tactic.Push
 import Mathlib.Tactic.NormNum
 import Mathlib.Tactic.Tauto
+import Mathlib.Tactic.Ring
 /-
   Source: the definitions TRANSLATED from /repo's current source (Generated/Exprs.lean, rewritten on every run by
   harness/ngv/translate.py) equal the hand-written model definitions, for all arguments.
 -/
 namespace NgVerif.Source
 open NgVerif NgVerif.Generated
+
+/-- closes an equation between two spellings of the same integer expression (operands of `+`, `*`, `min` swapped,
+    products expanded, ...): syntactically equal, or linear up to atoms, or equal after normalising the ring terms -/
+macro "src_eq" : tactic => `(tactic| first | rfl | omega | (ring_nf; first | rfl | omega))
+
 
 /-- the grid test as written in the source is, for one listed chunk size, the three-axis test of the model -/
 theorem validateCond_iff_model (b : Coords.Box) (xs ys zs xcs ycs zcs : Int) :
@@ -50,7 +56,7 @@ theorem volBounds_eq_model (s c i : Nat) :
     Src.volUpperX (chunk_size_0 := c) (x_chunk_idx := i) (size_0 := s) = ((min (c * (i + 1)) s : Nat) : Int) := by
   simp only [Src.volLowerZ, Src.volUpperZ, Src.volUpperX]
   push_cast
-  exact ⟨rfl, rfl, rfl⟩
+  exact ⟨by src_eq, by src_eq, by src_eq⟩
 
 theorem nextCmc_eq_model (m s p masked n : Nat) :
     Src.nextCmc (appended := n) (preshift_bits := p) (shard_bits := s) (minishard_bits := m)
@@ -64,7 +70,7 @@ theorem cvtBounds_eq_model (s c i : Nat) :
     Src.cvtUpperZ (chunk_size_2 := c) (z_idx := i) (size_2 := s) = ((min (c * (i + 1)) s : Nat) : Int) := by
   simp only [Src.cvtLowerX, Src.cvtUpperX, Src.cvtUpperZ]
   push_cast
-  exact ⟨rfl, rfl, rfl⟩
+  exact ⟨by src_eq, by src_eq, by src_eq⟩
 
 /-- `half_chunk` and `chunk_fetch_factor` of `compute_dyadic_downscaling` as written in the source are the
     model's `half` and `fetch` of the axis -/
@@ -73,7 +79,7 @@ theorem pyramid_arith_eq_model (a : Pyramid.Axis) :
     Src.pyrFetchFactor (nsz := a.nc) (hc := Pyramid.half a) = ((Pyramid.fetch a : Nat) : Int) := by
   simp only [Src.pyrHalfChunk, Src.pyrFetchFactor, Pyramid.half, Pyramid.fetch]
   push_cast
-  exact ⟨rfl, rfl⟩
+  exact ⟨by src_eq, by src_eq⟩
 
 /-- the per-axis chunk count of `scale-stats` as written in the source is the model's `Tiling.count` -/
 theorem statsCount_eq_model (s c : Nat) (hs : 1 ≤ s) :
@@ -140,8 +146,8 @@ theorem slices_arith_eq_model (n cs g k : Nat) (hn : 1 ≤ n) (hk : k < min (cs 
     push_cast
     have : ((n - 1 : Nat) : Int) = (n : Int) - 1 := by omega
     rw [this]
-  · simp only [Src.sliceFirstInOrder]; push_cast; rfl
-  · simp only [Src.sliceLastInOrder]; push_cast; rfl
+  · simp only [Src.sliceFirstInOrder]; push_cast; src_eq
+  · simp only [Src.sliceLastInOrder]; push_cast; src_eq
   · rw [hel]; simp only [Src.sliceFirstReversed]; omega
   · simp only [Src.sliceLastReversed, Src.sliceFirstReversed]; omega
 
